@@ -187,6 +187,12 @@ func (w *world) apply(k *collector, o thrmodel.Op) thrmodel.Res {
 	if !ok {
 		w.viol("C06", "seqmodel", "model:"+o.Name+":"+r.Err, "collector %d: %s%s returned %s in model state {%s}, not allowed by the documented sequential semantics",
 			k.id, o, kind, r, k.st.Key())
+		// C09: invalid input must be REPORTED (typed error / false verdict), not accepted
+		badOrig := (o.Name == "TrustedAdd" || o.Name == "VerifyAndAdd" || o.Name == "VerifyShare" || o.Name == "HasShare") && (o.Orig < 0 || o.Orig >= w.n)
+		badSig := o.Name == "ThresholdSignature" && r.Sig != "" && r.Sig != w.env.GroupSig
+		if r.Err == "" && (badOrig || badSig) {
+			w.viol("C09", "invalid-input", "invalid-input-accepted:"+o.Name, "collector %d: %s%s returned %s with a nil error", k.id, o, kind, r)
+		}
 		k.dead = true
 		return r
 	}
@@ -802,6 +808,9 @@ func (w *world) stateless(col *collector) {
 		ok := (hasRange && got == "input") || (hasDup && got == "duplicate")
 		if !ok || sig != nil {
 			w.viol("C06", "stateless", "stateless.signers", "signer list with out-of-range=%v duplicate=%v: stateless reconstruction returned err=%q", hasRange, hasDup, got)
+			if got == "" {
+				w.viol("C09", "invalid-input", "invalid-input-accepted:BLSReconstructThresholdSignature", "signer list with out-of-range=%v duplicate=%v was accepted with a nil error", hasRange, hasDup)
+			}
 		}
 		w.out.Probes["stateless_bad_signers"]++
 		return
@@ -825,6 +834,7 @@ func (w *world) stateless(col *collector) {
 	for i := 0; i <= w.t; i++ {
 		if undecodable[w.pool[col.list[i]].Kind] && got == "" {
 			w.viol("C06", "stateless", "stateless.malformed-share-accepted", "share #%d of the list is of kind %s (does not serialize to a point of E1) but the stateless reconstruction returned a signature and a nil error", i, w.pool[col.list[i]].Kind)
+			w.viol("C09", "invalid-input", "invalid-input-accepted:BLSReconstructThresholdSignature", "share #%d of kind %s was accepted with a nil error", i, w.pool[col.list[i]].Kind)
 			return
 		}
 	}
